@@ -7,15 +7,19 @@
 //! inside `block_on` of its own runtime, otherwise inside `handle.enter()`). `init` = a sink that was
 //! attached and whose handle was forgotten before the script starts (a global can never be detached after
 //! `forget`, so such globals stay in that state for the rest of the process and are reused for these cases).
-//! Ops: attach:s dropAttach forgetAttach setTL:s dropTL setRT:r:s setRTCur:s dropRT:r append:e tryAppend:e
+//! Ops: attach:s dropAttach[U|T] forgetAttach setTL:s dropTL[U] setRT:r:s setRTCur:s dropRT[U|T]:r append:e tryAppend:e
 //!      sink:e trySink:e isAttached hold:k useHeld:k:e
+//! Suffix `U` = the guard/handle is dropped by the unwinder: a scope inside `catch_unwind` on the op's thread owns it
+//! and panics; `T` = a freshly spawned thread owns it, panics and is joined. Same expected effect as a plain drop
+//! (the Lean model has one event for all three).
 //! Observable per op: `ok noop panic d<sink> ret<entry> none T F`, where `d<sink>` is derived from what the
 //! id-tagged recording sinks received during the op (exactly one record, of that entry, intact).
 //!
-//! T-trace case line: `race <n per thread> <threads> <detach after this many appends completed> <queue capacity, 0 = attach_to_stream default>`; the observed history is sent to the
+//! T-trace case line: `race <n per thread> <threads> <detach after this many appends completed> <queue capacity, 0 = attach_to_stream default> [U|T]`
+//! (`U`/`T`: the handle is dropped by a contained unwinding panic, in a scope / on a spawned thread); the observed history is sent to the
 //! driver as `race closed=.. trace=.. written=..` and judged by `Global.raceAccept`.
 //!
-//! Gated race case line: `gate <third thread 0|1> <wait ms>`: one accepted append is held in flight inside the
+//! Gated race case line: `gate <third thread 0|1> <wait ms> [U|T]`: one accepted append is held in flight inside the
 //! attached sink (a gate in the harness' sink) while another thread drops the attach handle; the detach must
 //! not return before the append completed; judged by the same Lean predicate and an accounting oracle.
 //!
@@ -196,16 +200,39 @@ const RUNTIMES: usize = 2;
 // ------------------------------------------------------------------------------------------------
 // script
 
+/// How a guard / handle is dropped. The property (and the Lean model: one event) does not distinguish them:
+/// a drop performed by the unwinder is still a drop.
+#[derive(Clone, Copy, Debug, PartialEq)]
+enum How {
+    /// plain `drop(x)`
+    Normal,
+    /// on the op's thread: a scope inside `catch_unwind` owns the object and panics (suffix `U`)
+    Unwind,
+    /// a freshly spawned thread (entering the op's runtime, if any) owns the object, panics, is joined (suffix `T`)
+    Thread,
+}
+
+impl How {
+    fn suffix(self) -> &'static str {
+        match self {
+            How::Normal => "",
+            How::Unwind => "U",
+            How::Thread => "T",
+        }
+    }
+}
+
 #[derive(Clone, Debug, PartialEq)]
 enum Op {
     Attach(u64),
-    DropAttach,
+    DropAttach(How),
     ForgetAttach,
     SetTL(u64),
-    DropTL,
+    /// `How::Thread` does not exist for this one: `ThreadLocalTestSinkGuard` is `!Send`
+    DropTL(How),
     SetRT(usize, u64),
     SetRTCur(u64),
-    DropRT(usize),
+    DropRT(usize, How),
     Append(u64),
     TryAppend(u64),
     Sink(u64),
@@ -227,13 +254,13 @@ impl Item {
         let r = self.r.map(|r| r.to_string()).unwrap_or("-".into());
         let op = match &self.op {
             Op::Attach(s) => format!("attach:{s}"),
-            Op::DropAttach => "dropAttach".into(),
+            Op::DropAttach(h) => format!("dropAttach{}", h.suffix()),
             Op::ForgetAttach => "forgetAttach".into(),
             Op::SetTL(s) => format!("setTL:{s}"),
-            Op::DropTL => "dropTL".into(),
+            Op::DropTL(h) => format!("dropTL{}", h.suffix()),
             Op::SetRT(r, s) => format!("setRT:{r}:{s}"),
             Op::SetRTCur(s) => format!("setRTCur:{s}"),
-            Op::DropRT(r) => format!("dropRT:{r}"),
+            Op::DropRT(r, h) => format!("dropRT{}:{r}", h.suffix()),
             Op::Append(e) => format!("append:{e}"),
             Op::TryAppend(e) => format!("tryAppend:{e}"),
             Op::Sink(e) => format!("sink:{e}"),
@@ -258,10 +285,13 @@ impl Item {
         let b: Option<u64> = p.next().and_then(|x| x.parse().ok());
         let op = match name {
             "attach" => Op::Attach(a?),
-            "dropAttach" => Op::DropAttach,
+            "dropAttach" => Op::DropAttach(How::Normal),
+            "dropAttachU" => Op::DropAttach(How::Unwind),
+            "dropAttachT" => Op::DropAttach(How::Thread),
             "forgetAttach" => Op::ForgetAttach,
             "setTL" => Op::SetTL(a?),
-            "dropTL" => Op::DropTL,
+            "dropTL" => Op::DropTL(How::Normal),
+            "dropTLU" => Op::DropTL(How::Unwind),
             "setRT" => {
                 if a? as usize >= RUNTIMES {
                     return None;
@@ -269,11 +299,15 @@ impl Item {
                 Op::SetRT(a? as usize, b?)
             }
             "setRTCur" => Op::SetRTCur(a?),
-            "dropRT" => {
+            "dropRT" | "dropRTU" | "dropRTT" => {
                 if a? as usize >= RUNTIMES {
                     return None;
                 }
-                Op::DropRT(a? as usize)
+                Op::DropRT(a? as usize, match name {
+                    "dropRT" => How::Normal,
+                    "dropRTU" => How::Unwind,
+                    _ => How::Thread,
+                })
             }
             "append" => Op::Append(a?),
             "tryAppend" => Op::TryAppend(a?),
@@ -289,13 +323,18 @@ impl Item {
     fn name(&self) -> &'static str {
         match self.op {
             Op::Attach(_) => "attach",
-            Op::DropAttach => "dropAttach",
+            Op::DropAttach(How::Normal) => "dropAttach",
+            Op::DropAttach(How::Unwind) => "dropAttachU",
+            Op::DropAttach(How::Thread) => "dropAttachT",
             Op::ForgetAttach => "forgetAttach",
             Op::SetTL(_) => "setTL",
-            Op::DropTL => "dropTL",
+            Op::DropTL(How::Normal) => "dropTL",
+            Op::DropTL(_) => "dropTLU",
             Op::SetRT(..) => "setRT",
             Op::SetRTCur(_) => "setRTCur",
-            Op::DropRT(_) => "dropRT",
+            Op::DropRT(_, How::Normal) => "dropRT",
+            Op::DropRT(_, How::Unwind) => "dropRTU",
+            Op::DropRT(_, How::Thread) => "dropRTT",
             Op::Append(_) => "append",
             Op::TryAppend(_) => "tryAppend",
             Op::Sink(_) => "sink",
@@ -428,6 +467,60 @@ struct Shared {
     forgot: Option<Arc<AtomicU64>>,
 }
 
+/// payload of the harness' own, contained panics
+struct ContainedPanic;
+
+fn panic_text(e: Box<dyn std::any::Any + Send>) -> String {
+    if let Some(s) = e.downcast_ref::<&str>() {
+        s.to_string()
+    } else if let Some(s) = e.downcast_ref::<String>() {
+        s.clone()
+    } else {
+        "panic".to_string()
+    }
+}
+
+/// `obj` is owned by a scope that panics; the unwinder drops it; the panic is contained by `catch_unwind`.
+/// (If the drop itself panics while unwinding the process aborts: that cannot be contained by anyone.)
+fn drop_unwinding<T>(obj: T) -> Result<(), String> {
+    match std::panic::catch_unwind(std::panic::AssertUnwindSafe(move || {
+        let _owned = obj;
+        std::panic::panic_any(ContainedPanic);
+    })) {
+        Ok(()) => Err("the owning scope did not panic".into()),
+        Err(e) if e.is::<ContainedPanic>() => Ok(()),
+        Err(e) => Err(panic_text(e)),
+    }
+}
+
+/// `obj` is moved to a freshly spawned thread (which enters the runtime current here, if any) that owns
+/// it, panics, and is joined.
+fn drop_on_panicking_thread<T: Send + 'static>(obj: T) -> Result<(), String> {
+    let enter = Handle::try_current().ok();
+    let joined = std::thread::Builder::new()
+        .name("panicking-owner".into())
+        .spawn(move || {
+            let _ctx = enter.as_ref().map(|h| h.enter());
+            let _owned = obj; // dropped first (reverse declaration order), i.e. inside the runtime context
+            std::panic::panic_any(ContainedPanic);
+        })
+        .expect("spawn")
+        .join();
+    match joined {
+        Ok(()) => Err("the owning thread did not panic".into()),
+        Err(e) if e.is::<ContainedPanic>() => Ok(()),
+        Err(e) => Err(panic_text(e)),
+    }
+}
+
+fn drop_send<T: Send + 'static>(obj: T, how: How) -> Result<(), String> {
+    match how {
+        How::Normal => catch(|| drop(obj)),
+        How::Unwind => drop_unwinding(obj),
+        How::Thread => drop_on_panicking_thread(obj),
+    }
+}
+
 /// raw outcome of the implementation call(s) of one op
 fn exec_op(g: usize, op: &Op, local: &mut Local, shared: &Arc<Mutex<Shared>>, log: &Log, handles: &[Handle]) -> String {
     let vt = &GLOBALS[g];
@@ -456,10 +549,10 @@ fn exec_op(g: usize, op: &Op, local: &mut Local, shared: &Arc<Mutex<Shared>>, lo
                 Err(p) => format!("panic:{p}"),
             }
         }
-        Op::DropAttach => {
+        Op::DropAttach(how) => {
             let h = shared.lock().unwrap().handle.take();
             match h {
-                Some((h, _)) => done(catch(|| drop(h))),
+                Some((h, _)) => done(drop_send(h, *how)),
                 None => "noop".into(),
             }
         }
@@ -487,8 +580,11 @@ fn exec_op(g: usize, op: &Op, local: &mut Local, shared: &Arc<Mutex<Shared>>, lo
                 Err(p) => format!("panic:{p}"),
             }
         }
-        Op::DropTL => match local.tl_guards.remove(&g) {
-            Some(guard) => done(catch(|| drop(guard))),
+        Op::DropTL(how) => match local.tl_guards.remove(&g) {
+            Some(guard) => done(match how {
+                How::Normal => catch(|| drop(guard)),
+                _ => drop_unwinding(guard),
+            }),
             None => "noop".into(),
         },
         Op::SetRT(r, s) => {
@@ -528,10 +624,10 @@ fn exec_op(g: usize, op: &Op, local: &mut Local, shared: &Arc<Mutex<Shared>>, lo
                 Err(p) => format!("panic:{p}"),
             }
         }
-        Op::DropRT(r) => {
+        Op::DropRT(r, how) => {
             let guard = shared.lock().unwrap().rt_guards[*r].take();
             match guard {
-                Some(guard) => done(catch(|| drop(guard))),
+                Some(guard) => done(drop_send(guard, *how)),
                 None => "noop".into(),
             }
         }
@@ -665,7 +761,7 @@ impl Tracker {
                     ("ok".to_string(), "attach")
                 }
             }
-            Op::DropAttach => {
+            Op::DropAttach(_) => {
                 if self.handle {
                     self.handle = false;
                     self.attached = None;
@@ -690,7 +786,7 @@ impl Tracker {
                     ("ok".to_string(), "set-thread-local")
                 }
             }
-            Op::DropTL => {
+            Op::DropTL(_) => {
                 if self.tl[t].take().is_some() {
                     ("ok".to_string(), "drop-thread-local")
                 } else {
@@ -716,7 +812,7 @@ impl Tracker {
                     }
                 }
             },
-            Op::DropRT(k) => {
+            Op::DropRT(k, _) => {
                 if self.rt[*k].take().is_some() {
                     ("ok".to_string(), "drop-runtime")
                 } else {
@@ -1040,18 +1136,36 @@ impl Conc {
 struct GateCase {
     third: bool,
     wait_ms: u64,
+    how: How,
+}
+
+fn how_of(tok: Option<&&str>) -> Option<How> {
+    match tok.copied() {
+        None | Some("n") => Some(How::Normal),
+        Some("U") => Some(How::Unwind),
+        Some("T") => Some(How::Thread),
+        _ => None,
+    }
+}
+
+fn how_tok(h: How) -> &'static str {
+    match h {
+        How::Normal => "",
+        How::Unwind => " U",
+        How::Thread => " T",
+    }
 }
 
 impl GateCase {
     fn encode(&self) -> String {
-        format!("gate {} {}", self.third as u8, self.wait_ms)
+        format!("gate {} {}{}", self.third as u8, self.wait_ms, how_tok(self.how))
     }
     fn decode(s: &str) -> Option<GateCase> {
         let v: Vec<&str> = s.split_whitespace().collect();
-        if v.len() != 3 || v[0] != "gate" {
+        if !(v.len() == 3 || v.len() == 4) || v[0] != "gate" {
             return None;
         }
-        let c = GateCase { third: v[1] == "1", wait_ms: v[2].parse().ok()? };
+        let c = GateCase { third: v[1] == "1", wait_ms: v[2].parse().ok()?, how: how_of(v.get(3))? };
         if c.wait_ms > 2000 {
             return None;
         }
@@ -1067,18 +1181,26 @@ struct RaceCase {
     target: u64,
     /// 0 = `attach_to_stream` (default queue), otherwise `BackgroundQueue::builder().capacity(cap)`
     cap: usize,
+    /// how the attach handle is dropped (optional last token `U` / `T`)
+    how: How,
 }
 
 impl RaceCase {
     fn encode(&self) -> String {
-        format!("race {} {} {} {}", self.per_thread, self.threads, self.target, self.cap)
+        format!("race {} {} {} {}{}", self.per_thread, self.threads, self.target, self.cap, how_tok(self.how))
     }
     fn decode(s: &str) -> Option<RaceCase> {
         let v: Vec<&str> = s.split_whitespace().collect();
-        if v.len() != 5 || v[0] != "race" {
+        if !(v.len() == 5 || v.len() == 6) || v[0] != "race" {
             return None;
         }
-        let c = RaceCase { per_thread: v[1].parse().ok()?, threads: v[2].parse().ok()?, target: v[3].parse().ok()?, cap: v[4].parse().ok()? };
+        let c = RaceCase {
+            per_thread: v[1].parse().ok()?,
+            threads: v[2].parse().ok()?,
+            target: v[3].parse().ok()?,
+            cap: v[4].parse().ok()?,
+            how: how_of(v.get(5))?,
+        };
         if c.threads == 0 || c.threads > THREADS || c.per_thread > 900 || c.target > c.per_thread * c.threads as u64 {
             return None;
         }
@@ -1142,7 +1264,7 @@ impl Shard {
         while progress.load(Ordering::Acquire) < c.target {
             std::hint::spin_loop();
         }
-        let dropped = catch(|| drop(handle));
+        let dropped = drop_send(handle, c.how);
         let at_return: Vec<StreamEv> = slog.lock().unwrap().clone();
         let per_thread: Vec<String> = pending.into_iter().map(|p| p.recv().expect("crew reply")).collect();
         let fin: Vec<StreamEv> = slog.lock().unwrap().clone();
@@ -1248,7 +1370,7 @@ impl Shard {
     /// be accepted (then delivered before the detach returns) or handed back, nothing else.
     /// The only timing element is one-sided: the harness waits `wait_ms` to give a premature detach the
     /// time to return; a correct implementation cannot return however long the wait is.
-    fn gated(&mut self, with_third: bool, wait_ms: u64) -> Option<RaceOutcome> {
+    fn gated(&mut self, with_third: bool, wait_ms: u64, how: How) -> Option<RaceOutcome> {
         let g = *self.clean.last()?;
         let vt = &GLOBALS[g];
         self.log.lock().unwrap().clear();
@@ -1283,7 +1405,7 @@ impl Shard {
             1,
             Mode::Plain,
             Box::new(move |_| {
-                let r = catch(|| drop(handle));
+                let r = drop_send(handle, how);
                 log.lock().unwrap().push(Rec { sink: DETACH_RETURNED, entry: 0, intact: true });
                 match r {
                     Ok(()) => "dropped".into(),
@@ -1384,6 +1506,21 @@ fn probes(base: u64) -> Vec<Item> {
     v
 }
 
+/// how a drop happens: 60% plain, otherwise by a contained unwinding panic (scope / spawned thread)
+fn gen_how(rng: &mut Rng, thread_ok: bool) -> How {
+    match rng.below(10) {
+        0..=5 => How::Normal,
+        6..=7 => How::Unwind,
+        _ => {
+            if thread_ok {
+                How::Thread
+            } else {
+                How::Unwind
+            }
+        }
+    }
+}
+
 fn gen_random(rng: &mut Rng, allow_forget: bool, stuck: bool) -> Case {
     let n = rng.range(1, 26) as usize;
     let mut ops = vec![];
@@ -1406,14 +1543,14 @@ fn gen_random(rng: &mut Rng, allow_forget: bool, stuck: bool) -> Case {
         } else if k < install * 2 {
             // a drop of something
             match rng.below(7) {
-                0 | 1 => Op::DropAttach,
-                2 | 3 => Op::DropTL,
-                4 | 5 => Op::DropRT(rng.below(2) as usize),
+                0 | 1 => Op::DropAttach(gen_how(rng, true)),
+                2 | 3 => Op::DropTL(gen_how(rng, false)),
+                4 | 5 => Op::DropRT(rng.below(2) as usize, gen_how(rng, true)),
                 _ => {
                     if allow_forget {
                         Op::ForgetAttach
                     } else {
-                        Op::DropAttach
+                        Op::DropAttach(gen_how(rng, true))
                     }
                 }
             }
@@ -1480,9 +1617,9 @@ fn gen_orders(rng: &mut Rng, out: &mut Vec<Case>, count: usize) {
                 "A" => Item { t: ot, r: or, op: Op::Attach(s) },
                 "T" => Item { t, r: or, op: Op::SetTL(s) },
                 "R" => Item { t: ot, r: or, op: Op::SetRT(k, s) },
-                "a" => Item { t: ot, r: or, op: Op::DropAttach },
-                "t" => Item { t, r: or, op: Op::DropTL },
-                _ => Item { t: ot, r: or, op: Op::DropRT(k) },
+                "a" => Item { t: ot, r: or, op: Op::DropAttach(gen_how(rng, true)) },
+                "t" => Item { t, r: or, op: Op::DropTL(gen_how(rng, false)) },
+                _ => Item { t: ot, r: or, op: Op::DropRT(k, gen_how(rng, true)) },
             };
             ops.push(op);
             for (pt, pr) in [(t, Some(k)), (t, None), (other, Some(k)), (other, None)] {
@@ -1494,12 +1631,12 @@ fn gen_orders(rng: &mut Rng, out: &mut Vec<Case>, count: usize) {
     }
 }
 
-/// every script of the given length over a reduced alphabet (9 ops x 4 contexts), each followed by probes
+/// every script of the given length over a reduced alphabet (14 ops x 4 contexts), each followed by probes
 fn gen_exhaustive(len: usize) -> Vec<Case> {
     let ctxs = [(0usize, None), (0, Some(0usize)), (3, Some(0)), (3, None)];
     let mut alphabet: Vec<(usize, Option<usize>, usize)> = vec![];
     for (t, r) in ctxs {
-        for o in 0..9 {
+        for o in 0..14 {
             alphabet.push((t, r, o));
         }
     }
@@ -1515,14 +1652,19 @@ fn gen_exhaustive(len: usize) -> Vec<Case> {
             let e = 1000 + pos as u64;
             let op = match o {
                 0 => Op::Attach(s),
-                1 => Op::DropAttach,
+                1 => Op::DropAttach(How::Normal),
                 2 => Op::SetTL(s),
-                3 => Op::DropTL,
+                3 => Op::DropTL(How::Normal),
                 4 => Op::SetRT(0, s),
-                5 => Op::DropRT(0),
+                5 => Op::DropRT(0, How::Normal),
                 6 => Op::SetRTCur(s),
                 7 => Op::TryAppend(e),
-                _ => Op::Sink(e),
+                8 => Op::Sink(e),
+                9 => Op::DropAttach(How::Unwind),
+                10 => Op::DropTL(How::Unwind),
+                11 => Op::DropRT(0, How::Unwind),
+                12 => Op::DropAttach(How::Thread),
+                _ => Op::DropRT(0, How::Thread),
             };
             ops.push(Item { t, r, op });
         }
@@ -1560,9 +1702,9 @@ fn gen_panics(rng: &mut Rng) -> Case {
     }
     ops.extend(probes(2000));
     let mut drops = vec![
-        Item { t: rng.below(5) as usize, r: None, op: Op::DropAttach },
-        Item { t, r: None, op: Op::DropTL },
-        Item { t: rng.below(5) as usize, r: None, op: Op::DropRT(k) },
+        Item { t: rng.below(5) as usize, r: None, op: Op::DropAttach(gen_how(rng, true)) },
+        Item { t, r: None, op: Op::DropTL(gen_how(rng, false)) },
+        Item { t: rng.below(5) as usize, r: None, op: Op::DropRT(k, gen_how(rng, true)) },
     ];
     rng.shuffle(&mut drops);
     for (i, d) in drops.into_iter().enumerate() {
@@ -1653,7 +1795,7 @@ fn run_shard(index: usize, cases: Vec<Case>, races: Vec<Conc>) -> ShardResult {
     for rc in races {
         let (out, class, is_gate) = match &rc {
             Conc::Race(r) => (shard.race(r), "race-detach", false),
-            Conc::Gate(g) => (shard.gated(g.third, g.wait_ms), "race-detach-gated", true),
+            Conc::Gate(g) => (shard.gated(g.third, g.wait_ms, g.how), "race-detach-gated", true),
         };
         match out {
             Some(o) => {
@@ -1743,6 +1885,7 @@ fn main() {
                     threads: r.range(1, THREADS as u64) as usize,
                     target: 0,
                     cap: if r.chance(1, 3) { 0 } else { 4096 },
+                    how: gen_how(&mut r, true),
                 }));
                 let Some(Conc::Race(rc)) = race_cases[s].last_mut() else { unreachable!() };
                 let total = rc.per_thread * rc.threads as u64;
@@ -1752,9 +1895,13 @@ fn main() {
                     _ => r.below(total + 1),
                 };
             }
-            let n_gates = if thorough { 30 } else { 4 };
+            let n_gates = if thorough { 30 } else { 6 };
             for i in 0..n_gates {
-                race_cases[s].push(Conc::Gate(GateCase { third: i % 2 == 1, wait_ms: if thorough { 30 } else { 40 } }));
+                race_cases[s].push(Conc::Gate(GateCase {
+                    third: i % 2 == 1,
+                    wait_ms: if thorough { 30 } else { 40 },
+                    how: [How::Normal, How::Normal, How::Unwind, How::Thread, How::Unwind, How::Thread][i % 6],
+                }));
             }
         }
     }
